@@ -18,7 +18,9 @@
 (*   cfg.startup  token instants of the startup profile, in ticks          *)
 (*                (<<0,0,0>> = once(3), <<0,1,2>> = const, <<0,0,1,1>> =   *)
 (*                instance_step ...); Len = number of startup tokens       *)
-(*   cfg.t        tokens of ONE RPS profile (shared: of the profile)       *)
+(*   cfg.t        tokens of ONE RPS profile (shared: of the profile); -1 = *)
+(*                unknown (the profile has an `unlimited` part): it hands  *)
+(*                out at least cfg.tmin tokens and ends when it likes      *)
 (*   cfg.a        ammo items the provider can deliver, -1 = unbounded      *)
 (*   cfg.per      rps-per-instance: every instance owns a profile          *)
 (*   cfg.discard  discard_overflow                                         *)
@@ -37,6 +39,7 @@ CONSTANTS MaxInst,          \* upper bound on startup tokens
           NegLeftShort,     \* shared Left() reports one less (composite Left() defect, DESIGN 5 #2)
           NegEarlyStart,    \* starter does not wait for the startup token's instant
           NegCountDiscard,  \* Request counter also counts discarded shots
+          UnlExtra,         \* a profile of unknown length hands out at most tmin + UnlExtra tokens (bound for TLC)
           NegCancelOnAnyEnd \* the await loop cancels instance start on ANY instance result, not only out-of-ammo
 
 VARIABLES
@@ -49,6 +52,7 @@ VARIABLES
   agg,            \* "run" | "done"   Aggregator.Run returned
   \* ---- RPS schedules
   drawn,          \* drawn[s] = tokens withdrawn from schedule s (0 = shared)
+  closed,         \* closed[s]: a schedule of unknown length has reported its end (stable)
   \* ---- starter goroutine (startInstances)
   spc,            \* "draw" | "sleep" | "create" | "done"
   sk,             \* startup tokens withdrawn
@@ -81,7 +85,8 @@ instVars  == <<ipc, held, tok, why>>
 cntVars   == <<request, response, instStart, instFinish, fired, discarded>>
 awVars    == <<runRes, provCh, aggCh, startCh, aw, poolRet>>
 ghostVars == <<badUse, ooaSeen, finSeen>>
-vars == <<cfg, now, provVars, drawn, startVars, ctxVars, instVars, cntVars, awVars, ghostVars>>
+schedVars == <<drawn, closed>>
+vars == <<cfg, now, provVars, schedVars, startVars, ctxVars, instVars, cntVars, awVars, ghostVars>>
 
 Inst == 1..MaxInst
 N    == Len(cfg.startup)
@@ -94,14 +99,26 @@ StartDone == startCancelled \/ RunDone
 
 Sid(i)    == IF cfg.per THEN i ELSE 0
 Shared(s) == s = 0
+Unknown   == cfg.t < 0
 LeftOf(s) == LET l == cfg.t - drawn[s]
              IN  IF NegLeftShort /\ Shared(s) /\ l > 0 THEN l - 1 ELSE l
+\* what Left() / Next() of schedule s can answer now.  Known length: exact.  Unknown length: Left() is
+\* non-zero (-1, "unknown") while the schedule has not ended; it may end once it has handed out its
+\* guaranteed tokens, and the end is stable.
+LeftIs(s, zero) == IF Unknown
+                   THEN IF zero THEN closed[s] \/ drawn[s] >= cfg.tmin - (IF NegLeftShort /\ Shared(s) THEN 1 ELSE 0)
+                                ELSE ~closed[s]
+                   ELSE zero = (LeftOf(s) = 0)
+NextIs(s, ok)   == IF Unknown
+                   THEN IF ok THEN ~closed[s] /\ drawn[s] < cfg.tmin + UnlExtra
+                              ELSE closed[s] \/ drawn[s] >= cfg.tmin
+                   ELSE ok = (drawn[s] < cfg.t)
 HasAmmo   == cfg.a < 0 \/ given < cfg.a
 
 InitFor(c) ==
   /\ cfg = c /\ now = 0
   /\ given = 0 /\ rel = <<>> /\ prov = "run" /\ agg = "run"
-  /\ drawn = [s \in 0..MaxInst |-> 0]
+  /\ drawn = [s \in 0..MaxInst |-> 0] /\ closed = [s \in 0..MaxInst |-> FALSE]
   /\ spc = "draw" /\ sk = 0 /\ created = 0 /\ ids = <<>>
   /\ startCancelled = FALSE /\ runCancelled = FALSE
   /\ ipc = [i \in Inst |-> "none"] /\ held = [i \in Inst |-> 0] /\ tok = [i \in Inst |-> FALSE]
@@ -120,7 +137,7 @@ Init == \E c \in Configs : InitFor(c)
 (* slowest possible clock is the adversary of "never more than released").  *)
 Tick == /\ spc = "sleep" /\ now < cfg.startup[sk]
         /\ now' = now + 1
-        /\ UNCHANGED <<cfg, provVars, drawn, startVars, ctxVars, instVars, cntVars, awVars, ghostVars>>
+        /\ UNCHANGED <<cfg, provVars, schedVars, startVars, ctxVars, instVars, cntVars, awVars, ghostVars>>
 
 ----------------------------------------------------------------------------
 (* starter: waiter.Wait(startCtx) = { ctx check; Next(); sleep until the    *)
@@ -133,19 +150,19 @@ S_Draw == /\ spc = "draw"
           /\ IF StartDone THEN StartReturn /\ sk' = sk
              ELSE IF sk < N THEN sk' = sk + 1 /\ spc' = "sleep" /\ startCh' = startCh
              ELSE StartReturn /\ sk' = sk
-          /\ UNCHANGED <<cfg, now, provVars, drawn, created, ids, ctxVars, instVars, cntVars,
+          /\ UNCHANGED <<cfg, now, provVars, schedVars, created, ids, ctxVars, instVars, cntVars,
                          runRes, provCh, aggCh, aw, poolRet, ghostVars>>
 
 \* timer fired: never before the token's instant
 S_Wake == /\ spc = "sleep"
           /\ NegEarlyStart \/ now >= cfg.startup[sk]
           /\ spc' = "create"
-          /\ UNCHANGED <<cfg, now, provVars, drawn, sk, created, ids, ctxVars, instVars, cntVars, awVars, ghostVars>>
+          /\ UNCHANGED <<cfg, now, provVars, schedVars, sk, created, ids, ctxVars, instVars, cntVars, awVars, ghostVars>>
 
 \* select { case <-timer.C ; case <-ctx.Done() }: the withdrawn token makes no instance
 S_SleepCancelled == /\ spc = "sleep" /\ StartDone
                     /\ StartReturn
-                    /\ UNCHANGED <<cfg, now, provVars, drawn, sk, created, ids, ctxVars, instVars, cntVars,
+                    /\ UNCHANGED <<cfg, now, provVars, schedVars, sk, created, ids, ctxVars, instVars, cntVars,
                                    runRes, provCh, aggCh, aw, poolRet, ghostVars>>
 
 \* id := started; go run(id); started++   (the first one: newInstance on this goroutine)
@@ -156,7 +173,7 @@ CreateEffect(id) == /\ ipc[id] = "none"
 S_Create == /\ spc = "create"
             /\ CreateEffect(created + 1)
             /\ spc' = "draw"
-            /\ UNCHANGED <<cfg, now, provVars, drawn, sk, ctxVars, held, tok, why, cntVars, awVars, ghostVars>>
+            /\ UNCHANGED <<cfg, now, provVars, schedVars, sk, ctxVars, held, tok, why, cntVars, awVars, ghostVars>>
 
 ----------------------------------------------------------------------------
 (* instance.Run                                                             *)
@@ -172,19 +189,22 @@ LoopEnd(i, w) == ipc' = [ipc EXCEPT ![i] = "exit"] /\ why' = [why EXCEPT ![i] = 
 I_New(i) == /\ ipc[i] = "new"
             /\ ipc' = [ipc EXCEPT ![i] = "check"]
             /\ instStart' = instStart + 1
-            /\ UNCHANGED <<cfg, now, provVars, drawn, startVars, ctxVars, held, tok, why,
+            /\ UNCHANGED <<cfg, now, provVars, schedVars, startVars, ctxVars, held, tok, why,
                            request, response, instFinish, fired, discarded, awVars, ghostVars>>
 
 \* for !waiter.IsFinished(ctx): ctx done, or Left() = 0
-I_Check(i) ==
+I_CheckZ(i, zero) ==
   /\ ipc[i] = "check"
   /\ IF RunDone
-     THEN LoopEnd(i, "ctx") /\ UNCHANGED <<startCancelled, finSeen>>
-     ELSE IF ~NegNoLeftCheck /\ LeftOf(Sid(i)) = 0
-     THEN LoopEnd(i, "sched") /\ OnFinish(Sid(i))
-     ELSE /\ ipc' = [ipc EXCEPT ![i] = IF NegTokenFirst THEN "wait" ELSE "acquire"]
-          /\ UNCHANGED <<why, startCancelled, finSeen>>
+     THEN LoopEnd(i, "ctx") /\ UNCHANGED <<startCancelled, finSeen, closed>>
+     ELSE /\ LeftIs(Sid(i), zero)
+          /\ IF ~NegNoLeftCheck /\ zero
+             THEN /\ LoopEnd(i, "sched") /\ OnFinish(Sid(i))
+                  /\ closed' = IF Unknown THEN [closed EXCEPT ![Sid(i)] = TRUE] ELSE closed
+             ELSE /\ ipc' = [ipc EXCEPT ![i] = IF NegTokenFirst THEN "wait" ELSE "acquire"]
+                  /\ UNCHANGED <<why, startCancelled, finSeen, closed>>
   /\ UNCHANGED <<cfg, now, provVars, drawn, startVars, runCancelled, held, tok, cntVars, awVars, badUse, ooaSeen>>
+I_Check(i) == \E zero \in BOOLEAN : I_CheckZ(i, zero)
 
 \* provider.Acquire(): next item, or ok = false once the queue is closed and empty
 I_Acquire(i) ==
@@ -196,25 +216,29 @@ I_Acquire(i) ==
           /\ UNCHANGED <<why, ooaSeen>>
      ELSE /\ LoopEnd(i, "ammo") /\ ooaSeen' = TRUE
           /\ UNCHANGED <<given, rel, held>>
-  /\ UNCHANGED <<cfg, now, prov, agg, drawn, startVars, ctxVars, tok, cntVars, awVars, badUse, finSeen>>
+  /\ UNCHANGED <<cfg, now, prov, agg, schedVars, startVars, ctxVars, tok, cntVars, awVars, badUse, finSeen>>
 
 \* waiter.Wait(ctx): ctx check, then Next() - the token is withdrawn here (atomic by C02)
-I_Wait(i) ==
+I_WaitOk(i, ok) ==
   /\ ipc[i] = "wait"
   /\ LET s == Sid(i)
          miss == IF NegTokenFirst THEN "check" ELSE "release" IN
      IF RunDone
-     THEN /\ ipc' = [ipc EXCEPT ![i] = miss]
-          /\ UNCHANGED <<drawn, tok, startCancelled, finSeen>>
-     ELSE IF drawn[s] < cfg.t
-     THEN /\ drawn' = [drawn EXCEPT ![s] = @ + 1]
-          /\ tok' = [tok EXCEPT ![i] = TRUE]
-          /\ ipc' = [ipc EXCEPT ![i] = IF NegTokenFirst THEN "acquire" ELSE "decide"]
-          /\ UNCHANGED <<startCancelled, finSeen>>
-     ELSE /\ ipc' = [ipc EXCEPT ![i] = miss]
-          /\ OnFinish(s)
-          /\ UNCHANGED <<drawn, tok>>
+     THEN /\ ~ok
+          /\ ipc' = [ipc EXCEPT ![i] = miss]
+          /\ UNCHANGED <<drawn, closed, tok, startCancelled, finSeen>>
+     ELSE /\ NextIs(s, ok)
+          /\ IF ok
+             THEN /\ drawn' = [drawn EXCEPT ![s] = @ + 1]
+                  /\ tok' = [tok EXCEPT ![i] = TRUE]
+                  /\ ipc' = [ipc EXCEPT ![i] = IF NegTokenFirst THEN "acquire" ELSE "decide"]
+                  /\ UNCHANGED <<closed, startCancelled, finSeen>>
+             ELSE /\ ipc' = [ipc EXCEPT ![i] = miss]
+                  /\ OnFinish(s)
+                  /\ closed' = IF Unknown THEN [closed EXCEPT ![s] = TRUE] ELSE closed
+                  /\ UNCHANGED <<drawn, tok>>
   /\ UNCHANGED <<cfg, now, provVars, startVars, runCancelled, held, why, cntVars, awVars, badUse, ooaSeen>>
+I_Wait(i) == \E ok \in BOOLEAN : I_WaitOk(i, ok)
 
 \* !discardOverflow || !IsSlowDown: Request++, gun.Shoot begins
 I_Fire(i) ==
@@ -224,7 +248,7 @@ I_Fire(i) ==
   /\ tok' = [tok EXCEPT ![i] = FALSE]
   /\ IF NegReleaseEarly THEN rel' = [rel EXCEPT ![held[i]] = @ + 1] ELSE rel' = rel
   /\ badUse' = (badUse \/ held[i] = 0 \/ (held[i] # 0 /\ rel[held[i]] # 0))
-  /\ UNCHANGED <<cfg, now, given, prov, agg, drawn, startVars, ctxVars, held, why,
+  /\ UNCHANGED <<cfg, now, given, prov, agg, schedVars, startVars, ctxVars, held, why,
                  response, instStart, instFinish, fired, discarded, awVars, ooaSeen, finSeen>>
 
 \* discardOverflow && IsSlowDown: aggregator.Report(DiscardedShootSample()).  Whether a token is
@@ -235,7 +259,7 @@ I_Discard(i) ==
   /\ request' = IF NegCountDiscard THEN request + 1 ELSE request
   /\ ipc' = [ipc EXCEPT ![i] = "release"]
   /\ tok' = [tok EXCEPT ![i] = FALSE]
-  /\ UNCHANGED <<cfg, now, provVars, drawn, startVars, ctxVars, held, why,
+  /\ UNCHANGED <<cfg, now, provVars, schedVars, startVars, ctxVars, held, why,
                  response, instStart, instFinish, fired, awVars, ghostVars>>
 
 \* gun.Shoot returns (any number of other steps may lie in between: shot duration); Response++
@@ -245,7 +269,7 @@ I_ShootEnd(i) ==
   /\ badUse' = (badUse \/ held[i] = 0 \/ (held[i] # 0 /\ rel[held[i]] # 0))
   /\ ipc' = [ipc EXCEPT ![i] = IF NegReleaseEarly THEN "check" ELSE "release"]
   /\ held' = IF NegReleaseEarly THEN [held EXCEPT ![i] = 0] ELSE held
-  /\ UNCHANGED <<cfg, now, provVars, drawn, startVars, ctxVars, tok, why,
+  /\ UNCHANGED <<cfg, now, provVars, schedVars, startVars, ctxVars, tok, why,
                  request, instStart, instFinish, discarded, awVars, ooaSeen, finSeen>>
 
 \* deferred provider.Release(ammo)
@@ -254,7 +278,7 @@ I_Release(i) ==
   /\ rel' = [rel EXCEPT ![held[i]] = @ + 1]
   /\ held' = [held EXCEPT ![i] = 0]
   /\ ipc' = [ipc EXCEPT ![i] = "check"]
-  /\ UNCHANGED <<cfg, now, given, prov, agg, drawn, startVars, ctxVars, tok, why, cntVars, awVars, ghostVars>>
+  /\ UNCHANGED <<cfg, now, given, prov, agg, schedVars, startVars, ctxVars, tok, why, cntVars, awVars, ghostVars>>
 
 \* deferred: InstanceFinish++; gun Close; runRes <- result
 I_Exit(i) ==
@@ -262,7 +286,7 @@ I_Exit(i) ==
   /\ instFinish' = instFinish + 1
   /\ runRes' = runRes \cup {<<i, why[i]>>}
   /\ ipc' = [ipc EXCEPT ![i] = "ended"]
-  /\ UNCHANGED <<cfg, now, provVars, drawn, startVars, ctxVars, held, tok, why,
+  /\ UNCHANGED <<cfg, now, provVars, schedVars, startVars, ctxVars, held, tok, why,
                  request, response, instStart, fired, discarded, provCh, aggCh, startCh, aw, poolRet, ghostVars>>
 
 ----------------------------------------------------------------------------
@@ -270,11 +294,11 @@ I_Exit(i) ==
 (* cancelled (the provider also when it has delivered everything)           *)
 P_Done == /\ prov = "run" /\ (RunDone \/ (cfg.a >= 0 /\ given = cfg.a))
           /\ prov' = "done" /\ provCh' = "full"
-          /\ UNCHANGED <<cfg, now, given, rel, agg, drawn, startVars, ctxVars, instVars, cntVars,
+          /\ UNCHANGED <<cfg, now, given, rel, agg, schedVars, startVars, ctxVars, instVars, cntVars,
                          runRes, aggCh, startCh, aw, poolRet, ghostVars>>
 G_Done == /\ agg = "run" /\ RunDone
           /\ agg' = "done" /\ aggCh' = "full"
-          /\ UNCHANGED <<cfg, now, given, rel, prov, drawn, startVars, ctxVars, instVars, cntVars,
+          /\ UNCHANGED <<cfg, now, given, rel, prov, schedVars, startVars, ctxVars, instVars, cntVars,
                          runRes, provCh, startCh, aw, poolRet, ghostVars>>
 
 ----------------------------------------------------------------------------
@@ -288,16 +312,16 @@ CheckAll(a) == IF ~a.closed /\ a.started >= 0 /\ a.awaited >= a.started
 
 AwaitProvider == /\ aw.toWait > 0 /\ provCh = "full"
                  /\ provCh' = "taken" /\ aw' = [aw EXCEPT !.toWait = @ - 1]
-                 /\ UNCHANGED <<cfg, now, provVars, drawn, startVars, ctxVars, instVars, cntVars,
+                 /\ UNCHANGED <<cfg, now, provVars, schedVars, startVars, ctxVars, instVars, cntVars,
                                 runRes, aggCh, startCh, poolRet, ghostVars>>
 AwaitAggregator == /\ aw.toWait > 0 /\ aggCh = "full"
                    /\ aggCh' = "taken" /\ aw' = [aw EXCEPT !.toWait = @ - 1]
-                   /\ UNCHANGED <<cfg, now, provVars, drawn, startVars, ctxVars, instVars, cntVars,
+                   /\ UNCHANGED <<cfg, now, provVars, schedVars, startVars, ctxVars, instVars, cntVars,
                                   runRes, provCh, startCh, poolRet, ghostVars>>
 AwaitStart == /\ aw.toWait > 0 /\ startCh = "full"
               /\ startCh' = "taken"
               /\ CheckAll([aw EXCEPT !.toWait = @ - 1, !.started = created])
-              /\ UNCHANGED <<cfg, now, provVars, drawn, startVars, startCancelled, instVars, cntVars,
+              /\ UNCHANGED <<cfg, now, provVars, schedVars, startVars, startCancelled, instVars, cntVars,
                              runRes, provCh, aggCh, poolRet, ghostVars>>
 AwaitInstance == /\ aw.toWait > 0 /\ ~aw.closed
                  /\ \E r \in runRes :
@@ -305,12 +329,12 @@ AwaitInstance == /\ aw.toWait > 0 /\ ~aw.closed
                       /\ startCancelled' = (startCancelled \/
                                             ((r[2] = "ammo" \/ NegCancelOnAnyEnd) /\ startCh # "taken"))
                       /\ CheckAll([aw EXCEPT !.awaited = @ + 1])
-                 /\ UNCHANGED <<cfg, now, provVars, drawn, startVars, instVars, cntVars,
+                 /\ UNCHANGED <<cfg, now, provVars, schedVars, startVars, instVars, cntVars,
                                 provCh, aggCh, startCh, poolRet, ghostVars>>
 \* close(awaitErr); instancePool.Run's select takes the closed channel: return nil
 AwaitExit == /\ aw.toWait = 0 /\ poolRet = "none"
              /\ poolRet' = "nil"
-             /\ UNCHANGED <<cfg, now, provVars, drawn, startVars, ctxVars, instVars, cntVars,
+             /\ UNCHANGED <<cfg, now, provVars, schedVars, startVars, ctxVars, instVars, cntVars,
                             runRes, provCh, aggCh, startCh, aw, ghostVars>>
 
 Done == poolRet = "nil"
@@ -336,21 +360,22 @@ TypeOK == /\ given \in Nat /\ created \in 0..MaxInst /\ sk \in 0..N
           /\ \A i \in Inst : held[i] \in 0..given
           /\ aw.toWait \in 0..4
 
-\* the tokens the statement speaks of: the shared profile, or one full profile per started instance
-\* (no instance at all - an empty startup profile - fires nothing)
-Tokens == IF cfg.per THEN cfg.t * created ELSE IF created = 0 THEN 0 ELSE cfg.t
-ExpectedShots == IF cfg.a < 0 THEN Tokens ELSE Min(Tokens, cfg.a)
-Unfired == Acquired - fired - discarded
-
 RECURSIVE SumDrawn(_)
 SumDrawn(k) == IF k < 0 THEN 0 ELSE drawn[k] + SumDrawn(k - 1)
+
+\* the tokens the statement speaks of: the shared profile, or one full profile per started instance
+\* (no instance at all - an empty startup profile - fires nothing)
+Tokens == IF Unknown THEN SumDrawn(MaxInst)          \* unknown length: whatever the profile handed out
+          ELSE IF cfg.per THEN cfg.t * created ELSE IF created = 0 THEN 0 ELSE cfg.t
+ExpectedShots == IF cfg.a < 0 THEN Tokens ELSE Min(Tokens, cfg.a)
+Unfired == Acquired - fired - discarded
 
 \* ---- C03
 \* conservation at every step: a withdrawn token is in exactly one place
 TokenConservation ==
   LET total == IF cfg.per THEN drawn[0] = 0 ELSE \A i \in Inst : drawn[i] = 0 IN
   /\ total
-  /\ \A s \in 0..MaxInst : drawn[s] <= cfg.t
+  /\ \A s \in 0..MaxInst : drawn[s] <= (IF Unknown THEN cfg.tmin + UnlExtra ELSE cfg.t)
   /\ fired + discarded + Cardinality({i \in Inst : tok[i] \/ ipc[i] = "shooting"})
        = SumDrawn(MaxInst)
 \* the token is withdrawn only while the ammo is held
@@ -364,7 +389,11 @@ CountersStep == /\ response = fired
                 /\ request = fired + Cardinality({i \in Inst : ipc[i] = "shooting"})
 Accounting  == Done => fired + discarded = ExpectedShots
 ReleasedAll == Done => (\A x \in Items : rel[x] = 1) /\ (\A i \in Inst : held[i] = 0)
-UnfiredBound == Done => IF cfg.per THEN Unfired = 0 ELSE Unfired <= Max(created - 1, 0) /\ Unfired >= 0
+\* (finite profiles; with a part of unknown length every instance may be caught holding ammo at the end)
+UnfiredBound == Done => IF Unknown THEN Unfired >= 0 /\ Unfired <= created
+                        ELSE IF cfg.per THEN Unfired = 0 ELSE Unfired <= Max(created - 1, 0) /\ Unfired >= 0
+\* a profile never reports its end before its guaranteed tokens are handed out
+MinTokensServed == Unknown => \A s \in 0..MaxInst : closed[s] => drawn[s] >= cfg.tmin
 CountersEnd == Done => /\ request = fired /\ response = fired
                        /\ instStart = created /\ instFinish = created
 
@@ -376,7 +405,7 @@ NotBeforeProfile == created <= Released(now)
 \* an instance stops only for one of its own reasons; the starter never stops one
 KeepsRunning == \A i \in Inst :
                   /\ ipc[i] \in {"exit", "ended"} => why[i] \in {"sched", "ammo", "ctx"}
-                  /\ why[i] = "sched" => LeftOf(Sid(i)) = 0 \/ NegLeftShort
+                  /\ why[i] = "sched" => (IF Unknown THEN closed[Sid(i)] ELSE LeftOf(Sid(i)) = 0) \/ NegLeftShort
                   /\ why[i] = "ammo"  => ~HasAmmo
                   /\ why[i] = "ctx"   => RunDone
 AllEnded == Done => \A i \in Inst : ipc[i] \in {"none", "ended"}
